@@ -123,3 +123,6 @@ func (this *Dataset) VerifForget(i int) {
 	p := this.partitions[i]
 	p.raftTransport.VerifRemoveGroup(p.id)
 }
+
+// VerifNotificator exposes the catalogue's notification registry (outcomes of applied catalogue entries).
+func (this *DatasetManager) VerifNotificator() *utils.Notificator { return this.notificator }
